@@ -426,6 +426,8 @@ class Fold:
             nv = obj / sqrt(sum(x * x for x in obj))
             if on.get("k") == "ref" and on.get("decl") in env:
                 env[on["decl"]] = nv
+            elif on.get("k") == "member":
+                env[("field", show(on))] = nv
             return nv
         if obj is not None and isinstance(obj, Matrix):
             v = self.matrix_method(short, obj, args, n)
